@@ -27,6 +27,8 @@ type LifeCfg struct {
 	TimeoutHi int
 	nextCommit int
 	bigDebt    bool // GenDebtCombo picks the largest shard and the longest renewal
+	ZeroTimeouts bool // GenStoreNew sometimes asks for a timeout of exactly 0
+	Capacity   uint64 // capacity every provider pledges during setup (0: the spec's default)
 	// Exclusions for open known findings (applied by construction, counted in s.Excluded).
 	NoRenewTopUp      bool // renew duration never raises the shard collateral (h4)
 	NoTerminateQueued bool // no terminate while a renewal has not started
@@ -223,6 +225,9 @@ func (cfg *LifeCfg) GenStoreNew(t *rapid.T, s *Sim) *Action {
 	a.Replica = int32(rapid.IntRange(1, cfg.MaxRep).Draw(t, "replica"))
 	a.Duration = cfg.genDur(t)
 	a.Timeout = int32(rapid.IntRange(cfg.TimeoutLo, cfg.TimeoutHi).Draw(t, "timeout"))
+	if cfg.ZeroTimeouts && rapid.IntRange(0, 11).Draw(t, "zeroTimeout") == 0 {
+		a.Timeout = 0 // on the boundary of the validation (must be refused: there is no interval to wait for)
+	}
 	if len(cfg.Sponsors) > 0 && rapid.IntRange(0, 4).Draw(t, "sponsored") == 0 {
 		sp := rapid.SampledFrom(cfg.Sponsors).Draw(t, "sponsor")
 		a.PayDid = sp
@@ -1199,4 +1204,41 @@ func (cfg *LifeCfg) GenSecondMigration(t *rapid.T, s *Sim) *Action {
 		}
 	}
 	return cfg.GenMigrate(t, s)
+}
+
+// GenFillThenZero steers towards "a provider with exactly no free capacity is needed for a request of
+// size 0": fill every provider exactly (one shard of the size of its free capacity on each), then ask
+// for a shard of size 0 (the chain stores it as one byte).
+func (cfg *LifeCfg) GenFillThenZero(t *rapid.T, s *Sim) *Action {
+	minFree, full := int64(-1), 0
+	for _, p := range cfg.Providers {
+		pl, ok := s.Last.Pledges[s.bech(p)]
+		if !ok {
+			continue
+		}
+		free := pl.TotalStorage - pl.UsedStorage
+		if free == 0 {
+			full++
+			continue
+		}
+		if minFree < 0 || free < minFree {
+			minFree = free
+		}
+	}
+	a := cfg.GenStoreNew(t, s)
+	if a == nil {
+		return nil
+	}
+	if full > 0 && rapid.Bool().Draw(t, "askForZero") {
+		a.Size = 0
+		a.Replica = int32(rapid.IntRange(1, len(cfg.Providers)).Draw(t, "replica"))
+		s.Label("zero-size-request-while-a-provider-is-full")
+		return a
+	}
+	if minFree <= 0 || minFree > 50_000_000 {
+		return a
+	}
+	a.Size = uint64(minFree)
+	a.Replica = int32(len(cfg.Providers))
+	return a
 }
